@@ -495,8 +495,8 @@ fn zero_case(rng: &mut Rng, case: &mut Case) -> Outcome {
 
 pub fn run(ctx: &Ctx) {
     let t = ctx.tier;
-    ctx.run_sub("values-small", Plan::sample(t.pick(120_000, 4_000_000), 0.3), |rng, case| one_case(rng, case, &TyParams::small()));
-    ctx.run_sub("values-medium", Plan::sample(t.pick(25_000, 1_000_000), 0.25), |rng, case| one_case(rng, case, &TyParams::medium()));
+    ctx.run_sub("values-small", Plan::sample(t.pick(400_000, 4_000_000), 0.3), |rng, case| one_case(rng, case, &TyParams::small()));
+    ctx.run_sub("values-medium", Plan::sample(t.pick(80_000, 1_000_000), 0.25), |rng, case| one_case(rng, case, &TyParams::medium()));
     ctx.run_sub("values-large", Plan::sample(t.pick(600, 40_000), 0.1), |rng, case| one_case(rng, case, &TyParams::large()));
     ctx.run_sub("offsets-enumerated", Plan::sample(t.pick(4_000, 200_000), 0.15), offsets_case);
     ctx.run_sub("buffer-ctx8", Plan::sample(t.pick(8_000, 400_000), 0.1), buffer_case);
